@@ -455,6 +455,11 @@ Qed.
 (* ================================================================== *)
 (* 5. the decoder                                                        *)
 
+(* Everything from here to the end of the section is proved once for both decoders:
+   k = false: bundled lib/base64.cc of /repo HEAD;  k = true: the libnettle 3.8 decoder. *)
+Section Decoder.
+Variable k : bool.
+
 (* reachable contexts: bits in {0,2,4,6}, 16-bit word, at most 3 padding characters seen *)
 Definition dvalid (c : dctx) : Prop :=
   (d_bits c = 0 \/ d_bits c = 2 \/ d_bits c = 4 \/ d_bits c = 6) /\ d_word c < 65536 /\ d_pad c <= 3.
@@ -521,14 +526,14 @@ Definition dstep (ctx : dctx) (c : N) : dctx * sres :=
   if (d =? -1)%Z then (ctx, SErr)
   else if (d =? -2)%Z then (ctx, SNone)
   else if (d =? -3)%Z then
-    if (d_bits ctx =? 0) || (2 <? d_pad ctx) || negb (d_word ctx mod 2 ^ d_bits ctx =? 0) then (ctx, SErr)
+    if (d_bits ctx =? 0) || pad_full k (d_pad ctx) || negb (d_word ctx mod 2 ^ d_bits ctx =? 0) then (ctx, SErr)
     else (mkD (d_word ctx) (d_bits ctx - 2) (d_pad ctx + 1), SNone)
   else if negb (d_pad ctx =? 0) then (ctx, SErr)
   else let w := (d_word ctx * 64 + Z.to_N d) mod 65536 in
        if d_bits ctx =? 0 then (mkD w 6 0, SNone)
        else (mkD w (d_bits ctx - 2) 0, SByte ((w / 2 ^ (d_bits ctx - 2)) mod 256)).
 
-Lemma decode_single_dstep ctx c : dvalid ctx -> decode_single ctx c = dstep ctx c.
+Lemma decode_single_dstep ctx c : dvalid ctx -> decode_single k ctx c = dstep ctx c.
 Proof.
   destruct ctx as [w b p]. unfold dvalid. cbn [d_bits d_word d_pad]. intros [Hb [Hw Hp]].
   unfold decode_single, dstep, TABLE_INVALID, TABLE_SPACE, TABLE_END. cbn [d_bits d_word d_pad].
@@ -537,7 +542,7 @@ Proof.
   destruct (d =? -2)%Z eqn:E2; [reflexivity|].
   destruct (d =? -3)%Z eqn:E3.
   - rewrite N.shiftl_1_l, N.sub_1_r, <- N.ones_equiv, N.land_ones.
-    destruct (b =? 0) eqn:Eb; [reflexivity|]. destruct (2 <? p) eqn:Ep; [reflexivity|]. cbn [orb].
+    destruct (b =? 0) eqn:Eb; [reflexivity|]. destruct (pad_full k p) eqn:Ep; [reflexivity|]. cbn [orb].
     destruct (w mod 2 ^ b =? 0) eqn:Ew; cbn [negb]; [|reflexivity].
     f_equal. f_equal; lia.
   - replace ((0 <=? d) && (d <? 64))%Z with true by lia.
@@ -567,9 +572,9 @@ Proof.
   destruct (d =? -1)%Z eqn:E1; [intros H; inversion H; subst; cbn; repeat split; auto|].
   destruct (d =? -2)%Z eqn:E2; [intros H; inversion H; subst; cbn; repeat split; auto; lia|].
   destruct (d =? -3)%Z eqn:E3.
-  - destruct ((b =? 0) || (2 <? p) || negb (w mod 2 ^ b =? 0)) eqn:Ec;
+  - destruct ((b =? 0) || pad_full k p || negb (w mod 2 ^ b =? 0)) eqn:Ec;
       intros H; inversion H; subst; cbn [d_bits d_word d_pad]; [repeat split; auto|].
-    repeat split; try lia.
+    unfold pad_full in Ec. destruct k; repeat split; try lia.
   - destruct (negb (p =? 0)) eqn:Ep0; [intros H; inversion H; subst; cbn; repeat split; auto|].
     destruct (b =? 0) eqn:Eb; intros H; inversion H; subst; cbn [d_bits d_word d_pad].
     + repeat split; try lia; try (apply N.mod_lt; lia).
@@ -577,7 +582,7 @@ Proof.
 Qed.
 
 (* --- T: bytes stored by one decode_update call, accepted or not --- *)
-Lemma decode_update_acct src : forall ctx ctx' u, dvalid ctx -> decode_update ctx src = (ctx', u) ->
+Lemma decode_update_acct src : forall ctx ctx' u, dvalid ctx -> decode_update k ctx src = (ctx', u) ->
   dvalid ctx' /\ (forall w, u <> UAbort w) /\
   8 * lenN (uwritten u) + (match u with UOk _ => d_bits ctx' | _ => 0 end) <= d_bits ctx + 6 * lenN src.
 Proof.
@@ -589,7 +594,7 @@ Proof.
     + inversion H; subst. split; [exact Hv|]. split; [intros ?; discriminate|]. cbn [uwritten lenN]. lia.
     + destruct (IH c1 ctx' u Hv1 H) as [Hv' [Hna Hle]]. cbn [lenN].
       split; [exact Hv'|]. split; [exact Hna|]. lia.
-    + destruct (decode_update c1 r) as [c2 u2] eqn:E2. inversion H; subst.
+    + destruct (decode_update k c1 r) as [c2 u2] eqn:E2. inversion H; subst.
       destruct (IH c1 ctx' u2 Hv1 E2) as [Hv' [Hna Hle]]. destruct Hs as [Hs _]. cbn [lenN].
       split; [exact Hv'|]. split.
       * intros w. destruct u2; cbn [ucons]; try discriminate. intros Hx. inversion Hx; subst.
@@ -599,10 +604,10 @@ Proof.
 Qed.
 
 Theorem decode_update_bounded ctx src : dvalid ctx ->
-  let '(ctx', u) := decode_update ctx src in
+  let '(ctx', u) := decode_update k ctx src in
   dvalid ctx' /\ (forall w, u <> UAbort w) /\ lenN (uwritten u) <= BASE64_DECODE_LENGTH (lenN src).
 Proof.
-  intros Hv. destruct (decode_update ctx src) as [ctx' u] eqn:E.
+  intros Hv. destruct (decode_update k ctx src) as [ctx' u] eqn:E.
   destruct (decode_update_acct src ctx ctx' u Hv E) as [Hv' [Hna Hle]].
   split; [exact Hv'|]. split; [exact Hna|]. unfold BASE64_DECODE_LENGTH.
   destruct Hv as [Hb _].
@@ -623,7 +628,7 @@ Fixpoint dupd (ctx : dctx) (src : bytes) : dctx * ures :=
     end
   end.
 
-Lemma decode_update_dupd src : forall ctx, dvalid ctx -> decode_update ctx src = dupd ctx src.
+Lemma decode_update_dupd src : forall ctx, dvalid ctx -> decode_update k ctx src = dupd ctx src.
 Proof.
   induction src as [|c r IH]; intros ctx Hv; cbn [decode_update dupd]; [reflexivity|].
   rewrite decode_single_dstep by exact Hv.
@@ -649,12 +654,13 @@ Proof.
   replace (b =? 0) with false by lia. reflexivity.
 Qed.
 
-Lemma dstep_pad w b p : b <> 0 -> p <= 2 -> w mod 2 ^ b = 0 ->
+Lemma dstep_pad w b p : b <> 0 -> p <= 1 -> w mod 2 ^ b = 0 ->
   dstep (mkD w b p) PAD = (mkD w (b - 2) (p + 1), SNone).
 Proof.
   intros Hb Hp Hw. unfold dstep. rewrite dec_PAD. cbn [d_bits d_word d_pad].
   change (-3 =? -1)%Z with false. change (-3 =? -2)%Z with false. change (-3 =? -3)%Z with true.
-  rewrite Hw. replace (b =? 0) with false by lia. replace (2 <? p) with false by lia. reflexivity.
+  rewrite Hw. replace (b =? 0) with false by lia.
+  replace (pad_full k p) with false by (unfold pad_full; destruct k; lia). reflexivity.
 Qed.
 
 Lemma mod_chain x y : (x mod 65536 * 64 + y) mod 65536 = (x * 64 + y) mod 65536.
@@ -705,17 +711,17 @@ Proof.
 Qed.
 
 (* T: decoding the encoding returns the input exactly *)
-Theorem decode_enc_spec x : all_bytes_ok x -> b64_decode (enc_spec x) = Some x.
+Theorem decode_enc_spec x : all_bytes_ok x -> b64_decode k (enc_spec x) = Some x.
 Proof.
   intros Hb. unfold b64_decode. rewrite decode_update_dupd by exact dvalid_init.
   destruct (dupd_enc_spec x Hb 0) as [c' [Hd Hz]]. unfold dctx_init. rewrite Hd.
   unfold decode_final. rewrite Hz. reflexivity.
 Qed.
 
-Theorem decode_encode_roundtrip x : all_bytes_ok x -> b64_decode (b64_encode x) = Some x.
+Theorem decode_encode_roundtrip x : all_bytes_ok x -> b64_decode k (b64_encode x) = Some x.
 Proof. intros Hb. rewrite b64_encode_spec by exact Hb. apply decode_enc_spec. exact Hb. Qed.
 
-Theorem decode_encode_raw_roundtrip x : all_bytes_ok x -> b64_decode (encode_raw x) = Some x.
+Theorem decode_encode_raw_roundtrip x : all_bytes_ok x -> b64_decode k (encode_raw x) = Some x.
 Proof. intros Hb. rewrite encode_raw_spec by exact Hb. apply decode_enc_spec. exact Hb. Qed.
 
 (* ================================================================== *)
@@ -816,26 +822,28 @@ Proof.
   - exact I.
 Qed.
 
-Definition clean_cred (c : N) : bool := is_byte c && negb (c =? 0) && negb (c =? 13) && negb (c =? 10).
+(* a byte that makes decodeCleartext refuse the credentials: NUL (since 06c1c79), CR, LF *)
+Definition cred_refused (c : N) : bool := (c =? 0) || (c =? 13) || (c =? 10).
 
-(* the whole path: "<scheme> <white space> base64(user:password) [LF anything]" *)
-Theorem basic_decode_wellformed cs scheme ws u p tail :
-  forallb xisgraph scheme = true -> ws <> [] -> forallb xisspace ws = true ->
-  forallb clean_cred (u ++ 58 :: p) = true -> ~ In 58 u ->
-  (tail = [] \/ exists t, tail = 10 :: t) ->
-  basic_decode cs (scheme ++ ws ++ enc_spec (u ++ 58 :: p) ++ tail) =
-  Some (if cs then u else map xtolower u, match p with [] => None | _ => Some p end).
+Lemma existsb_false_forallb {A} (p : A -> bool) l :
+  existsb p l = false -> forallb (fun c => negb (p c)) l = true.
 Proof.
-  intros Hs Hws0 Hws Hc Hu Ht.
-  set (clear := u ++ 58 :: p) in *.
-  assert (Hb : forallb is_byte clear = true).
-  { revert Hc. apply forallb_impl. intros x. unfold clean_cred. intros H.
-    repeat (apply andb_true_iff in H as [H ?]). exact H. }
-  assert (Hnz : forallb (fun c => negb (c =? 0)) clear = true).
-  { revert Hc. apply forallb_impl. intros x. unfold clean_cred. intros H.
-    repeat (apply andb_true_iff in H as [H ?]). assumption. }
+  induction l as [|x l IH]; cbn [existsb forallb]; [reflexivity|].
+  intros H. apply orb_false_iff in H as [Hx Hl]. rewrite Hx, IH by exact Hl. reflexivity.
+Qed.
+
+(* the whole path through decodeCleartext and the split, for EVERY non-empty credential text:
+   "<scheme> <white space> base64(clear) [LF anything]" is refused when clear contains NUL, CR or
+   LF, and otherwise yields exactly the split of clear at its first colon *)
+Theorem basic_decode_total cs scheme ws clear tail :
+  forallb xisgraph scheme = true -> ws <> [] -> forallb xisspace ws = true ->
+  all_bytes_ok clear -> clear <> [] ->
+  (tail = [] \/ exists t, tail = 10 :: t) ->
+  basic_decode k cs (scheme ++ ws ++ enc_spec clear ++ tail) =
+  if existsb cred_refused clear then None else Some (basic_split cs clear).
+Proof.
+  intros Hs Hws0 Hws Hb Hne Ht. unfold all_bytes_ok in Hb.
   assert (Hg : forallb xisgraph (enc_spec clear) = true) by (apply enc_spec_graph; exact Hb).
-  assert (Hne : clear <> []) by (unfold clear; destruct u; discriminate).
   destruct (enc_spec_nonempty clear Hne) as [y [r Hy]].
   assert (Hyg : xisgraph y = true).
   { rewrite Hy in Hg. cbn [forallb] in Hg. apply andb_true_iff in Hg. tauto. }
@@ -874,23 +882,43 @@ Proof.
     destruct Htail as [-> | [t' ->]]; [exact I|reflexivity]. }
   rewrite Htok.
   rewrite decode_enc_spec by exact Hb.
-  rewrite cstr_id by exact Hnz.
-  replace (existsb (fun c : N => (c =? 13) || (c =? 10)) clear) with false.
-  - unfold clear. rewrite basic_split_first_colon by exact Hu. reflexivity.
-  - symmetry. apply not_true_is_false. intros Hex. apply existsb_exists in Hex as [x [Hin Hx]].
-    rewrite forallb_forall in Hc. specialize (Hc x Hin). unfold clean_cred in Hc. lia.
+  (* the NUL test, then the CR/LF test on the C string *)
+  destruct (existsb (fun c : N => c =? 0) clear) eqn:Enul.
+  - replace (existsb cred_refused clear) with true; [reflexivity|].
+    symmetry. apply existsb_exists in Enul as [x [Hin Hx]]. apply existsb_exists. exists x.
+    split; [exact Hin|]. unfold cred_refused. rewrite Hx. reflexivity.
+  - rewrite cstr_id by (apply existsb_false_forallb; exact Enul).
+    assert (Heq : existsb cred_refused clear = existsb (fun c : N => (c =? 13) || (c =? 10)) clear).
+    { clear - Enul. induction clear as [|x l IH]; [reflexivity|]. cbn [existsb] in *.
+      apply orb_false_iff in Enul as [Hx Hl]. rewrite IH by exact Hl. unfold cred_refused. rewrite Hx. reflexivity. }
+    rewrite Heq. destruct (existsb (fun c : N => (c =? 13) || (c =? 10)) clear); reflexivity.
 Qed.
 
-(* the statement without the "no NUL" restriction is false for the code as it is *)
-Definition nul_witness_user : bytes := [117; 115; 101; 114; 0; 120].   (* "user\0x" *)
-Definition nul_witness_pass : bytes := [112; 97; 115; 115].            (* "pass" *)
-Lemma basic_split_refuted_by_nul :
-  exists u p, ~ In 58 u /\ p <> [] /\ all_bytes_ok (u ++ 58 :: p) /\
-    basic_decode true ([66; 97; 115; 105; 99; 32] ++ enc_spec (u ++ 58 :: p)) = Some ([117; 115; 101; 114], None).
+(* "Basic credentials decode to the user name before the first colon and the password after it",
+   with no restriction on the bytes of user name and password *)
+Theorem basic_credentials cs scheme ws u p tail :
+  forallb xisgraph scheme = true -> ws <> [] -> forallb xisspace ws = true ->
+  all_bytes_ok (u ++ 58 :: p) -> ~ In 58 u ->
+  (tail = [] \/ exists t, tail = 10 :: t) ->
+  basic_decode k cs (scheme ++ ws ++ enc_spec (u ++ 58 :: p) ++ tail) =
+  if existsb cred_refused (u ++ 58 :: p) then None
+  else Some (if cs then u else map xtolower u, match p with [] => None | _ => Some p end).
 Proof.
-  exists nul_witness_user, nul_witness_pass. repeat split.
-  - cbn. intros H. repeat (destruct H as [H|H]; [discriminate H|]). exact H.
-  - discriminate.
+  intros Hs Hws0 Hws Hb Hu Ht.
+  rewrite basic_decode_total; try assumption; [|destruct u; discriminate].
+  rewrite basic_split_first_colon by exact Hu. reflexivity.
+Qed.
+
+Theorem basic_nul_refused cs scheme ws clear tail :
+  forallb xisgraph scheme = true -> ws <> [] -> forallb xisspace ws = true ->
+  all_bytes_ok clear -> In 0 clear ->
+  (tail = [] \/ exists t, tail = 10 :: t) ->
+  basic_decode k cs (scheme ++ ws ++ enc_spec clear ++ tail) = None.
+Proof.
+  intros Hs Hws0 Hws Hb Hin Ht.
+  rewrite basic_decode_total; try assumption; [|destruct clear; [destruct Hin|discriminate]].
+  replace (existsb cred_refused clear) with true; [reflexivity|].
+  symmetry. apply existsb_exists. exists 0. split; [exact Hin|reflexivity].
 Qed.
 
 (* ================================================================== *)
@@ -930,11 +958,11 @@ Definition dres_of (acc : bytes) (r : dctx * ures) : dres :=
 (* T: the outcome of init; update*; final -- including the bytes stored before a rejection --
    depends only on the concatenation of the chunks *)
 Theorem decode_chunks_concat chunks : forall ctx acc, dvalid ctx ->
-  decode_chunks ctx chunks acc = dres_of acc (decode_update ctx (concat chunks)).
+  decode_chunks k ctx chunks acc = dres_of acc (decode_update k ctx (concat chunks)).
 Proof.
   induction chunks as [|s r IH]; intros ctx acc Hv; cbn [decode_chunks concat].
   - cbn [decode_update dres_of]. rewrite app_nil_r. reflexivity.
-  - destruct (decode_update ctx s) as [c1 u1] eqn:E1.
+  - destruct (decode_update k ctx s) as [c1 u1] eqn:E1.
     pose proof (decode_update_acct s ctx c1 u1 Hv E1) as [Hv1 [Hna _]].
     rewrite (decode_update_dupd (s ++ concat r)) by exact Hv. rewrite dupd_app.
     rewrite <- (decode_update_dupd s) by exact Hv. rewrite E1.
@@ -959,7 +987,7 @@ Qed.
 (* T: any cutting of any white-space-interleaved RFC 4648 encoding of x decodes to exactly x *)
 Theorem decode_wellformed_any_segmentation chunks x :
   all_bytes_ok x -> all_bytes_ok (concat chunks) -> strip_ws (concat chunks) = enc_spec x ->
-  decode_chunks dctx_init chunks [] = DOk x.
+  decode_chunks k dctx_init chunks [] = DOk x.
 Proof.
   intros Hx Hc Hs. rewrite decode_chunks_concat by exact dvalid_init.
   rewrite decode_update_dupd by exact dvalid_init. rewrite dupd_strip_ws by exact Hc. rewrite Hs.
@@ -977,7 +1005,7 @@ Lemma dstep_inv ctx c : c < 256 -> b64_ws c = false ->
      dstep ctx c = if d_bits ctx =? 0 then (mkD ((d_word ctx * 64 + d) mod 65536) 6 0, SNone)
                    else (mkD ((d_word ctx * 64 + d) mod 65536) (d_bits ctx - 2) 0,
                          SByte ((((d_word ctx * 64 + d) mod 65536) / 2 ^ (d_bits ctx - 2)) mod 256)))
-  \/ (c = PAD /\ d_bits ctx <> 0 /\ d_pad ctx <= 2 /\ d_word ctx mod 2 ^ d_bits ctx = 0 /\
+  \/ (c = PAD /\ d_bits ctx <> 0 /\ pad_full k (d_pad ctx) = false /\ d_word ctx mod 2 ^ d_bits ctx = 0 /\
       dstep ctx c = (mkD (d_word ctx) (d_bits ctx - 2) (d_pad ctx + 1), SNone))
   \/ dstep ctx c = (ctx, SErr).
 Proof.
@@ -987,10 +1015,10 @@ Proof.
   destruct (dec_lookup c =? -2)%Z eqn:E2.
   { exfalso. assert (b64_ws c = true) by (apply Hwi; lia). congruence. }
   destruct (dec_lookup c =? -3)%Z eqn:E3.
-  - destruct ((d_bits ctx =? 0) || (2 <? d_pad ctx) || negb (d_word ctx mod 2 ^ d_bits ctx =? 0)) eqn:Ec;
+  - destruct ((d_bits ctx =? 0) || pad_full k (d_pad ctx) || negb (d_word ctx mod 2 ^ d_bits ctx =? 0)) eqn:Ec;
       [right; right; reflexivity|].
     right; left. apply orb_false_iff in Ec as [Ec Ew]. apply orb_false_iff in Ec as [Eb Ep].
-    apply negb_false_iff, N.eqb_eq in Ew. apply N.eqb_neq in Eb. apply N.ltb_ge in Ep.
+    apply negb_false_iff, N.eqb_eq in Ew. apply N.eqb_neq in Eb.
     repeat split; auto. apply dec_end_inv; [exact Hc|lia].
   - destruct (negb (d_pad ctx =? 0)) eqn:Ep; [right; right; reflexivity|].
     left. exists (Z.to_N (dec_lookup c)). apply negb_false_iff, N.eqb_eq in Ep.
@@ -1007,7 +1035,7 @@ Lemma dupd_cons_inv ctx c r c' o : c < 256 -> b64_ws c = false -> dupd ctx (c ::
   \/ (exists d o2, d < 64 /\ c = E d /\ d_pad ctx = 0 /\ d_bits ctx <> 0 /\
         o = ((((d_word ctx * 64 + d) mod 65536) / 2 ^ (d_bits ctx - 2)) mod 256) :: o2 /\
         dupd (mkD ((d_word ctx * 64 + d) mod 65536) (d_bits ctx - 2) 0) r = (c', UOk o2))
-  \/ (c = PAD /\ d_bits ctx <> 0 /\ d_pad ctx <= 2 /\ d_word ctx mod 2 ^ d_bits ctx = 0 /\
+  \/ (c = PAD /\ d_bits ctx <> 0 /\ pad_full k (d_pad ctx) = false /\ d_word ctx mod 2 ^ d_bits ctx = 0 /\
       dupd (mkD (d_word ctx) (d_bits ctx - 2) (d_pad ctx + 1)) r = (c', UOk o)).
 Proof.
   intros Hc Hws H. cbn [dupd] in H.
@@ -1085,7 +1113,7 @@ Qed.
 
 Lemma dupd_accept_shape n : forall s, (length s <= n)%nat -> forallb is_byte s = true -> noWs s ->
   forall w c' o, dupd (mkD w 0 0) s = (c', UOk o) -> d_bits c' = 0 ->
-  s = enc_spec o \/ (s = enc_spec o ++ A3 /\ lenN o mod 3 = 0).
+  s = enc_spec o \/ (k = true /\ s = enc_spec o ++ A3 /\ lenN o mod 3 = 0).
 Proof.
   induction n as [|n IH]; intros s Hl Hb Hw w c' o H Hz.
   { destruct s; [|cbn in Hl; lia]. apply dupd_nil_inv in H as [_ ->]. left; reflexivity. }
@@ -1112,9 +1140,9 @@ Proof.
           set (x1 := a); set (x2 := b); set (x3 := c) end.
         assert (Hg : [E d; E d0; E d1; E d2] = grp x1 x2 x3) by (unfold grp, x1, x2, x3; list_E).
         rewrite enc_spec_cons3, <- Hg. cbn [app].
-        destruct IH as [IH | [IH Hm]]; [left | right].
+        destruct IH as [IH | [Hk [IH Hm]]]; [left | right].
         -- rewrite <- IH. reflexivity.
-        -- split; [rewrite IH; reflexivity | cbn [lenN]; lia].
+        -- split; [exact Hk|]. split; [rewrite IH; reflexivity | cbn [lenN]; lia].
       * (* c4 = '=' : "xxx=" *)
         change (2 - 2) with 0 in *. change (0 + 1) with 1 in *.
         apply dupd_after_padding in Hn0; [|lia|exact Hb|exact Hw]. destruct Hn0 as [-> ->].
@@ -1137,7 +1165,9 @@ Proof.
     split_char Hb Hw c4. inv_step Hn Hcc4 Hwc4.
     change (2 - 2) with 0 in *. change (2 + 1) with 3 in *.
     apply dupd_after_padding in Hn0; [|lia|exact Hb|exact Hw]. destruct Hn0 as [-> ->].
-    right. pow2. rewrite m64 in Hm. assert (d = 0) by lia. subst. split; reflexivity.
+    (* the third '=' : only the nettle test (padding > 2) lets it through *)
+    destruct k; [|unfold pad_full in *; discriminate].
+    right. pow2. rewrite m64 in Hm. assert (d = 0) by lia. subst. repeat split; reflexivity.
 Qed.
 
 Lemma strip_ws_props src : forallb is_byte src = true ->
@@ -1149,10 +1179,11 @@ Proof.
 Qed.
 
 (* T: the accepted language, exactly (modulo the white space the decoder skips by design):
-   an accepted input is the RFC 4648 encoding of what was decoded, or that encoding of a whole
-   number of quanta followed by the non-canonical "A===" *)
-Theorem accepted_language_exact src out : all_bytes_ok src -> b64_decode src = Some out ->
-  strip_ws src = enc_spec out \/ (strip_ws src = enc_spec out ++ A3 /\ lenN out mod 3 = 0).
+   an accepted input is the RFC 4648 encoding of what was decoded; only the nettle variant also
+   accepts that encoding of a whole number of quanta followed by the non-canonical "A===" *)
+Theorem accepted_language_exact src out : all_bytes_ok src -> b64_decode k src = Some out ->
+  strip_ws src = enc_spec out \/
+  (k = true /\ strip_ws src = enc_spec out ++ A3 /\ lenN out mod 3 = 0).
 Proof.
   unfold all_bytes_ok, b64_decode. intros Hb H.
   rewrite decode_update_dupd in H by exact dvalid_init.
@@ -1163,17 +1194,6 @@ Proof.
   destruct (strip_ws_props src Hb) as [Hb' Hw'].
   exact (dupd_accept_shape (length (strip_ws src)) (strip_ws src) (le_n _) Hb' Hw' 0 c out E Ez).
 Qed.
-
-Theorem malformed_rejected_partial src out : all_bytes_ok src -> b64_decode src = Some out ->
-  (forall o, strip_ws src <> enc_spec o ++ A3) -> strip_ws src = enc_spec out.
-Proof.
-  intros Hb H Hq. destruct (accepted_language_exact src out Hb H) as [He | [He _]]; [exact He|].
-  exfalso. exact (Hq out He).
-Qed.
-
-Lemma strict_rejection_refuted :
-  exists src out, all_bytes_ok src /\ b64_decode src = Some out /\ strip_ws src <> enc_spec out.
-Proof. exists A3, []. repeat split. discriminate. Qed.
 
 (* a byte outside alphabet, '=' and white space anywhere in the input: never accepted *)
 Lemma dupd_invalid c src : In c src -> dec_lookup c = (-1)%Z ->
@@ -1187,12 +1207,61 @@ Proof.
     + specialize (IH Hin c1). destruct (dupd c1 r) as [c2 u]. cbn [snd] in *. destruct u; cbn [ucons]; auto.
 Qed.
 
-Theorem invalid_character_rejected c src : In c src -> dec_lookup c = (-1)%Z -> b64_decode src = None.
+Theorem invalid_character_rejected c src : In c src -> dec_lookup c = (-1)%Z -> b64_decode k src = None.
 Proof.
   intros Hin Hd. unfold b64_decode. rewrite decode_update_dupd by exact dvalid_init.
   pose proof (dupd_invalid c src Hin Hd dctx_init) as H.
   destruct (dupd dctx_init src) as [c1 u]. cbn [snd] in H. destruct u; [destruct H|reflexivity|reflexivity].
 Qed.
+
+End Decoder.
+
+(* ================================================================== *)
+(* 10. the two decoders                                                   *)
+
+(* bundled lib/base64.cc (HEAD): "malformed base64 is rejected" at full strength --
+   whatever is accepted is, white space aside, the RFC 4648 encoding of the output *)
+Theorem bundled_malformed_rejected src out : all_bytes_ok src -> b64_decode false src = Some out ->
+  strip_ws src = enc_spec out.
+Proof.
+  intros Hb H. destruct (accepted_language_exact false src out Hb H) as [He | [Hk _]]; [exact He|discriminate Hk].
+Qed.
+
+(* contrapositive reading: an input that is not (white space aside) a canonical encoding is refused *)
+Theorem bundled_rejects_noncanonical src : all_bytes_ok src ->
+  (forall out, strip_ws src <> enc_spec out) -> b64_decode false src = None.
+Proof.
+  intros Hb Hn. destruct (b64_decode false src) as [out|] eqn:E; [|reflexivity].
+  exfalso. exact (Hn out (bundled_malformed_rejected src out Hb E)).
+Qed.
+
+(* libnettle 3.8 decoder: exact language including the quirk, the refutation, and the restricted statement *)
+Theorem nettle_accepted_language src out : all_bytes_ok src -> b64_decode true src = Some out ->
+  strip_ws src = enc_spec out \/ (strip_ws src = enc_spec out ++ A3 /\ lenN out mod 3 = 0).
+Proof.
+  intros Hb H. destruct (accepted_language_exact true src out Hb H) as [He | [_ Hq]]; [left; exact He|right; exact Hq].
+Qed.
+
+Lemma nettle_strict_rejection_refuted :
+  exists src out, all_bytes_ok src /\ b64_decode true src = Some out /\ strip_ws src <> enc_spec out.
+Proof. exists A3, []. repeat split. discriminate. Qed.
+
+Theorem nettle_malformed_rejected_partial src out : all_bytes_ok src -> b64_decode true src = Some out ->
+  (forall o, strip_ws src <> enc_spec o ++ A3) -> strip_ws src = enc_spec out.
+Proof.
+  intros Hb H Hq. destruct (nettle_accepted_language src out Hb H) as [He | [He _]]; [exact He|].
+  exfalso. exact (Hq out He).
+Qed.
+
+(* the same witness is refused by the bundled copy *)
+Lemma bundled_refuses_A3 : b64_decode false A3 = None /\ b64_decode false ([81; 85; 74; 68] ++ A3) = None.
+Proof. vm_compute. split; reflexivity. Qed.
+
+(* through decodeCleartext with the nettle decoder linked: "Basic A===" still yields (empty) credentials *)
+Lemma nettle_basic_accepts_A3 :
+  basic_decode true true ([66; 97; 115; 105; 99; 32] ++ A3) = Some ([], None) /\
+  basic_decode false true ([66; 97; 115; 105; 99; 32] ++ A3) = None.
+Proof. vm_compute. split; reflexivity. Qed.
 
 (* non-vacuity helpers for Properties_C36.v *)
 Lemma example_no_A3_suffix : forall o, [81; 85; 74; 68] <> enc_spec o ++ A3.
@@ -1201,9 +1270,11 @@ Proof.
   injection H as _ _ _ _ H. destruct (enc_spec r); discriminate H.
 Qed.
 
-Lemma example_clean_cred :
-  forallb clean_cred ([65; 108; 97; 100; 100; 105; 110] ++ 58 :: [111; 112; 101; 110]) = true /\
-  ~ In 58 [65; 108; 97; 100; 100; 105; 110].
+Lemma example_cred_hyps :
+  all_bytes_ok ([65; 108; 97; 100; 100; 105; 110] ++ 58 :: [111; 112; 101; 110]) /\
+  ~ In 58 [65; 108; 97; 100; 100; 105; 110] /\
+  existsb cred_refused ([65; 108; 97; 100; 100; 105; 110] ++ 58 :: [111; 112; 101; 110]) = false.
 Proof.
-  split; [vm_compute; reflexivity|]. cbn. intros H. repeat (destruct H as [H|H]; [discriminate H|]). exact H.
+  split; [vm_compute; reflexivity|]. split; [|vm_compute; reflexivity].
+  cbn. intros H. repeat (destruct H as [H|H]; [discriminate H|]). exact H.
 Qed.
